@@ -31,6 +31,9 @@ PROBES = [
     "dead-node-count-asked-by-subscript",
     "refused-call-then-exactness-checked",
     "first-write-refused-then-exactness-checked",
+    "third-party-batch-opened",
+    "third-party-batch-closed",
+    "third-party-batch-closed-while-own-batch-open",
 ]
 FAULTS = ["batch-abort", "batch-abort-base", "restart-regenerated-counts", "write-fail-not-applied"]
 COMPONENTS = {
@@ -89,6 +92,77 @@ class World(HWorld):
             self.st.probe("first-write-refused-then-exactness-checked")
             return "failed:" + type(exc).__name__
         return super().mutation_raised(h, cmd, exc)
+
+    # -- a third party: an unrelated NON-pruning trie (own store) whose batches may stay open
+    # across this trie's operations and batches, and close in any order relative to them
+    def op_by2open(self, h, cmd):
+        from trie import HexaryTrie
+
+        from ..hworld import _batch_proc
+        from ..simdb import SimDB
+
+        if getattr(self, "by2", None) is None:
+            self.by2_db = SimDB()
+            self.by2 = HexaryTrie(self.by2_db)
+            self.by2_model = {}
+            self.by2_gen = None
+        if self.by2_gen is not None:
+            return "skip"
+        g = _batch_proc(self.by2)
+        batch = next(g)
+        self.by2_gen = g
+        self.by2_pre = dict(self.by2_db.raw())
+        model = dict(self.by2_model)
+        try:
+            for k, v in cmd["ops"]:
+                if v:
+                    batch[unhx(k)] = unhx(v)
+                    model[unhx(k)] = unhx(v)
+                else:
+                    del batch[unhx(k)]
+                    model.pop(unhx(k), None)
+        except Exception as e:
+            self.viol("bystander-disturbed", f"an unrelated non-pruning trie's batch operation raised {e!r}")
+        self.by2_next = model
+        self.st.probe("third-party-batch-opened")
+        return "ok"
+
+    def op_by2close(self, h, cmd):
+        g = getattr(self, "by2_gen", None)
+        if g is None:
+            return "skip"
+        self.by2_gen = None
+        try:
+            g.send(("commit",))
+        except StopIteration:
+            pass
+        except Exception as e:
+            self.viol("bystander-disturbed", f"the commit of an unrelated non-pruning trie's batch raised {e!r}")
+        self.by2_model = self.by2_next
+        from ..models.mpt import RefMPT
+
+        r = RefMPT(self.by2_model)
+        raw = self.by2_db.raw()
+        if self.by2.root_hash != r.root_hash or any(raw.get(x) != body for x, body in r.body.items()):
+            self.viol("bystander-disturbed", "an unrelated non-pruning trie's batch did not commit its own root / nodes")
+        for x, body in self.by2_pre.items():
+            if raw.get(x) != body:
+                self.viol("bystander-disturbed", f"an unrelated non-pruning trie lost entry {x.hex()} of its own store when its batch was committed (another trie's batch was open or had just closed)")
+        self.st.probe("third-party-batch-closed-while-own-batch-open" if h.bgen is not None else "third-party-batch-closed")
+        # ... and the trie under test is still exact
+        if h.bgen is None:
+            self.check_exact(h)
+        return "ok"
+
+    def close(self):
+        g = getattr(self, "by2_gen", None)
+        if g is not None:
+            try:
+                g.close()
+            except BaseException:
+                pass
+            self.by2_gen = None
+        super().close()
 
     def op_by(self, h, cmd):
         k = unhx(cmd["k"])
@@ -175,6 +249,14 @@ def generate(rng):
     if rng.random() < 0.3:
         for _ in range(rng.choice([1, 2, 4])):
             cmds.insert(rng.randrange(len(cmds) + 1), {"op": "badset", "k": hx(rng.choice(pool)), "bad": rng.choice(["str", "none", "int"]), "arg": rng.choice(["value", "value", "key"]), "on": rng.choice(["live", "batch"])})
+    if rng.random() < 0.3:
+        # a third party: batches of an unrelated non-pruning trie, open across our operations
+        for _ in range(rng.choice([1, 2, 3])):
+            a = rng.randrange(len(cmds) + 1)
+            b = rng.randrange(a, len(cmds) + 1)
+            ops = [[hx(rng.choice(pool)), hx(rng.choice(values)) if rng.random() < 0.7 else ""] for _ in range(rng.randint(1, 5))]
+            cmds.insert(b, {"op": "by2close"})
+            cmds.insert(a, {"op": "by2open", "ops": ops})
     if rng.random() < 0.3:
         # the store refuses the first write of some direct operations (nothing is kept)
         for c in cmds:
